@@ -106,6 +106,7 @@ Section Text.
   Variable bech32_dec : list N -> list N -> res (list N).
   Variable segwit_dec : list N -> list N -> res (N * list N).
   Variable cash_dec : list N -> list N -> res (list N * list N).
+  Variable b32_enc_nopad : option (list N) -> list N -> res (list N).
   Variable b32_dec : option (list N) -> list N -> res (list N).
   Variable ss58_dec : list N -> res (N * list N).
 
@@ -151,9 +152,13 @@ Section Text.
 
   Section Base32.
     Hypothesis b32_dec_family : forall c s, in_family (b32_dec c s) = true.
+    (* the canonical-form test of the Algorand / Filecoin decoders re-encodes the decoded bytes *)
+    Hypothesis b32_enc_family : forall c d, in_family (b32_enc_nopad c d) = true.
+    Lemma canonical_b32_family c d t : in_family (canonical_b32 b32_enc_nopad c d t) = true.
+    Proof. unfold canonical_b32. fam. apply b32_enc_family. Qed.
     (* AlgoAddrDecoder *)
-    Lemma algo_addr_decode_family addr : in_family (algo_decode sha512_256 valid_pub b32_dec addr) = true.
-    Proof. unfold algo_decode, split_by_checksum. addr_fam. apply b32_dec_family. Qed.
+    Lemma algo_addr_decode_family addr : in_family (algo_decode sha512_256 valid_pub b32_enc_nopad b32_dec addr) = true.
+    Proof. unfold algo_decode, split_by_checksum. addr_fam; try apply canonical_b32_family. apply b32_dec_family. Qed.
     (* XlmAddrDecoder: payload[0] after the length check (35 bytes, 2 of them checksum) cannot fail *)
     Lemma xlm_decode_family ty addr : in_family (xlm_decode valid_pub crc16_xmodem b32_dec ty addr) = true.
     Proof.
@@ -167,8 +172,8 @@ Section Text.
       - addr_fam.
     Qed.
     (* FilSecp256k1AddrDecoder / NanoAddrDecoder / NimAddrDecoder *)
-    Lemma fil_decode_family addr : in_family (fil_decode blake2b b32_dec addr) = true.
-    Proof. unfold fil_decode, split_by_checksum. addr_fam. apply b32_dec_family. Qed.
+    Lemma fil_decode_family addr : in_family (fil_decode blake2b b32_enc_nopad b32_dec addr) = true.
+    Proof. unfold fil_decode, split_by_checksum. addr_fam; try apply canonical_b32_family. apply b32_dec_family. Qed.
     Lemma nano_decode_family addr : in_family (nano_decode blake2b valid_pub b32_dec addr) = true.
     Proof. unfold nano_decode, split_by_checksum. addr_fam. apply b32_dec_family. Qed.
     Lemma nim_decode_family addr : in_family (nim_decode b32_dec addr) = true.
@@ -191,18 +196,31 @@ Definition ss58_dec_model (blake2b512 : list N -> list N) (s : list N) : res (N 
 Lemma b32_dec_model_family c s : in_family (b32_dec_model c s) = true.
 Proof. apply b32_decode_family. Qed.
 
+(* Base32Encoder.EncodeNoPadding(data, custom_alphabet) as the canonical-form test of the address layer calls it:
+   a value that is no byte, or a custom alphabet of the wrong length, is a ValueError; nothing else *)
+Definition b32_enc_model (c : option (list N)) (d : list N) : res (list N) := Codecs.b32_encode_no_padding d c.
+Lemma b32_enc_model_family c d : in_family (b32_enc_model c d) = true.
+Proof.
+  unfold b32_enc_model, Codecs.b32_encode_no_padding, Base32.encode_no_padding, Base32.encode, Base32.b32encode.
+  destruct (Lemmas.ConvertBits.range_dec 8 d) as [Hd|Hd].
+  - destruct (Lemmas.ConvertBits.convert_pad_spec 8 5 eq_refl eq_refl d Hd) as (l & p & E & _). rewrite E.
+    cbn [ConvertBits.none_is_value_error bind Ok]. destruct c as [c|]; [|reflexivity].
+    unfold Base32.translate. destruct (_ =? _)%nat; reflexivity.
+  - rewrite (Lemmas.ConvertBits.convert_range 8 5 eq_refl eq_refl d true Hd). reflexivity.
+Qed.
+
 Section Inst.
   Variables sha512_256 blake2b512 : list N -> list N.
   Variable blake2b : nat -> list N -> list N.
   Variable valid_pub : N -> list N -> bool.
   Variable crc16_xmodem : list N -> list N.
 
-  Lemma algo_addr_decode_b32 addr : in_family (algo_decode sha512_256 valid_pub b32_dec_model addr) = true.
-  Proof. apply algo_addr_decode_family, b32_dec_model_family. Qed.
+  Lemma algo_addr_decode_b32 addr : in_family (algo_decode sha512_256 valid_pub b32_enc_model b32_dec_model addr) = true.
+  Proof. apply algo_addr_decode_family; [apply b32_dec_model_family|apply b32_enc_model_family]. Qed.
   Lemma xlm_decode_b32 ty addr : in_family (xlm_decode valid_pub crc16_xmodem b32_dec_model ty addr) = true.
   Proof. apply xlm_decode_family, b32_dec_model_family. Qed.
-  Lemma fil_decode_b32 addr : in_family (fil_decode blake2b b32_dec_model addr) = true.
-  Proof. apply fil_decode_family, b32_dec_model_family. Qed.
+  Lemma fil_decode_b32 addr : in_family (fil_decode blake2b b32_enc_model b32_dec_model addr) = true.
+  Proof. apply fil_decode_family; [apply b32_dec_model_family|apply b32_enc_model_family]. Qed.
   Lemma nano_decode_b32 addr : in_family (nano_decode blake2b valid_pub b32_dec_model addr) = true.
   Proof. apply nano_decode_family, b32_dec_model_family. Qed.
   Lemma nim_decode_b32 addr : in_family (nim_decode b32_dec_model addr) = true.
